@@ -888,8 +888,30 @@ func (r *Runner) single(header string, res *ObResult, solver string, timeoutMs i
 // modelTerms lists the terms whose values describe a counterexample.
 func (s *Script) modelTerms() []string {
 	var ts []string
+	var proj func(term string, srt *Sort, depth int)
+	proj = func(term string, srt *Sort, depth int) {
+		if depth > 3 {
+			return
+		}
+		switch srt.Kind {
+		case KInt, KReal:
+			ts = append(ts, term)
+		case KStruct:
+			for _, fl := range srt.Fields {
+				proj(fmt.Sprintf("(%s.%s %s)", srt.Name, fl.Name, term), fl.Sort, depth+1)
+			}
+		case KArr:
+			if srt.Key == nil {
+				for k := 0; k < 4; k++ {
+					proj(fmt.Sprintf("(select %s %d)", term, k), srt.Elem, depth+1)
+				}
+			}
+		}
+	}
 	for _, p := range s.Params {
 		switch p.Sort.Kind {
+		case KStruct, KArr:
+			proj(p.Name, p.Sort, 0)
 		case KInt, KBool, KReal, KStr:
 			ts = append(ts, p.Name)
 		case KSeq:
